@@ -1,0 +1,196 @@
+//go:build verif
+
+package platform
+
+// Contracts checked by /verif (govc). Comment-only file; not part of normal builds.
+
+// Helpers that parse version strings are abstracted as uninterpreted functions of their
+// arguments (assumed contracts; the facts used about them are the axioms below, which are
+// bounded-checked against the real functions by /verif/replay_drivers/platform_test.go).
+//@ ufun $vv(string) int
+//@ ufun $semcmp(string, string) int
+//@ ufun $osver(string) string
+//@ ufun $sse([]string, []string) bool
+//@ axiom vv-empty: $vv("") == 0
+//@ axiom osver-empty: $osver("") == ""
+//@ axiom osver-nonempty: forall(x, string, $osver(x) == "" ==> x == "")
+//@ axiom semcmp-refl: forall(a, string, $semcmp(a, a) == 0)
+//@ axiom semcmp-antisym: forall(a, string, forall(b, string, $semcmp(a, b) < 0 ==> $semcmp(b, a) >= 0))
+//@ axiom sse-refl: forall(a, []string, $sse(a, a))
+//@ axiom sse-sym: forall(a, []string, forall(b, []string, $sse(a, b) ==> $sse(b, a)))
+//@ axiom sse-trans: forall(a, []string, forall(b, []string, forall(c, []string, $sse(a, b) && $sse(b, c) ==> $sse(a, c))))
+//@ func variantVer(v) (n)
+//@   trusted pure function of its argument (strings.TrimPrefix + strconv.Atoi)
+//@   pure
+//@   ensures n == $vv(v)
+//@ func semverCmp(a, b) (r)
+//@   trusted pure function of its arguments; reflexive and antisymmetric (bounded-checked)
+//@   pure
+//@   ensures r == $semcmp(a, b)
+//@ func osVerSemver(platVer) (r)
+//@   trusted pure function of its argument
+//@   pure
+//@   ensures r == $osver(platVer)
+//@ func strSliceEq(a, b) (r)
+//@   trusted equality of two string slices: an equivalence relation on slice values while their elements are not written
+//@   pure
+//@   ensures r == $sse(a, b)
+
+// C16 "the entry chosen is one the requested platform can run"
+//@ lemma better-implies-compatible
+//@   prop C16
+//@   inline Better, NewCompare, Compatible
+//@   forall c *compare, t Platform, p Platform
+//@   assume c != nil
+//@   let b = c.Better(t, p)
+//@   assert runnable: b ==> Compatible(c.host, t)
+
+// C16 "an entry is found whenever at least one runnable entry exists": the scan starts from the
+// zero platform; any compatible entry beats it (for a well-formed request: OS and architecture set)
+//@ lemma found-if-exists
+//@   prop C16
+//@   inline Better, NewCompare, Compatible
+//@   forall host Platform, t Platform
+//@   let c = NewCompare(host, nil)
+//@   assume c.host.OS != "" && c.host.Architecture != ""
+//@   assume Compatible(c.host, t)
+//@   let b = c.Better(t, Platform{})
+//@   assert found: b
+
+// C16 "none that the ordering ranks strictly better is passed over – independent of list order":
+// Better is a strict order on the entries: never both ways round, never better than itself.
+//@ lemma better-asymmetric
+//@   prop C16
+//@   inline Better, NewCompare, Compatible
+//@   forall c *compare, a Platform, b Platform
+//@   assume c != nil
+//@   let x = c.Better(a, b)
+//@   let y = c.Better(b, a)
+//@   assert asymmetric: !(x && y)
+//@ lemma better-irreflexive
+//@   prop C16
+//@   inline Better, NewCompare, Compatible
+//@   forall c *compare, a Platform
+//@   assume c != nil
+//@   let x = c.Better(a, a)
+//@   assert irreflexive: !x
+
+// C16 "an exact match is always preferred over a merely compatible one"
+//@ lemma exact-match-first
+//@   prop C16
+//@   inline Better, NewCompare, Compatible
+//@   forall host Platform, a Platform, b Platform
+//@   let c = NewCompare(host, nil)
+//@   let ma = c.Match(a)
+//@   let mb = c.Match(b)
+//@   assume ma && !mb
+//@   let x = c.Better(b, a)
+//@   assert exact-not-beaten: !x
+
+// C16 normal form: normalize is idempotent and maps the documented aliases to one value
+//@ lemma normalize-idempotent
+//@   prop C16
+//@   forall p *Platform
+//@   assume p != nil
+//@   let r1 = p.normalize()
+//@   let v1 = *p
+//@   let r2 = p.normalize()
+//@   assert idempotent: *p == v1
+//@ lemma normalize-aliases
+//@   prop C16
+//@   forall p *Platform
+//@   assume p != nil
+//@   let os0 = p.OS
+//@   let arch0 = p.Architecture
+//@   let var0 = p.Variant
+//@   let r1 = p.normalize()
+//@   assert macos: os0 == "macos" ==> p.OS == "darwin"
+//@   assert amd64: (arch0 == "x86_64" || arch0 == "x86-64" || arch0 == "amd64") ==> p.Architecture == "amd64" && (var0 == "v1" ==> p.Variant == "")
+//@   assert arm64: (arch0 == "aarch64" || arch0 == "arm64") ==> p.Architecture == "arm64" && ((var0 == "8" || var0 == "v8") ==> p.Variant == "")
+//@   assert armhf: arch0 == "armhf" ==> p.Architecture == "arm" && p.Variant == "v7"
+//@   assert armel: arch0 == "armel" ==> p.Architecture == "arm" && p.Variant == "v6"
+//@   assert arm-default: arch0 == "arm" && (var0 == "" || var0 == "7") ==> p.Variant == "v7"
+//@   assert i386: arch0 == "i386" ==> p.Architecture == "386"
+//@   assert other-os-kept: os0 != "macos" ==> p.OS == os0
+
+// Transitivity of Better, CONDITIONAL on the OS-version comparison being transitive on the
+// versions involved (the real semverCmp is a strict weak order only on versions with the same
+// number of parts; see DESIGN.md C16). With asymmetry this makes Better a strict partial order,
+// so the result of the scan does not depend on list order up to Better-equivalence.
+//@ lemma better-transitive
+//@   prop C16
+//@   inline Better, NewCompare, Compatible
+//@   forall host Platform, a Platform, b Platform, d Platform
+//@   let c = NewCompare(host, nil)
+//@   assume forall(p, string, forall(q, string, forall(r, string, $semcmp(p, q) < 0 && $semcmp(q, r) < 0 ==> $semcmp(p, r) < 0)))
+//@   assume forall(p, string, forall(q, string, $semcmp(p, q) == 0 ==> $semcmp(q, p) == 0))
+//@   assume forall(p, string, forall(q, string, forall(r, string, $semcmp(p, q) == 0 && $semcmp(q, r) == 0 ==> $semcmp(p, r) == 0)))
+//@   assume forall(p, string, forall(q, string, forall(r, string, $semcmp(p, q) == 0 && $semcmp(q, r) < 0 ==> $semcmp(p, r) < 0)))
+//@   assume forall(p, string, forall(q, string, forall(r, string, $semcmp(p, q) < 0 && $semcmp(q, r) == 0 ==> $semcmp(p, r) < 0)))
+//@   let x = c.Better(a, b)
+//@   let y = c.Better(b, d)
+//@   let z = c.Better(a, d)
+//@   assert transitive: x && y ==> z
+
+// ---- functional abstraction of Better for callers (DescriptorListSearch) ----
+// $better(host, target, prev) names the result of the real (*compare).Better. The abstraction
+// is justified by the lemma better-deterministic below (same inputs, same result, whatever the
+// first call wrote) and by Better writing only its own local copies.
+//@ ufun $better(Platform, Platform, Platform) bool
+//@ ufun $fromNew(Platform) bool
+//@ func (*compare).Better(target, prev) (r)
+//@   trusted functional abstraction, justified by lemma better-deterministic
+//@   pure
+//@   ensures r == $better(c.host, target, prev)
+// $fromNew(h): h is the host of a compare built by NewCompare without options (a name, not an
+// assumption: the lemmas below are proved for exactly these hosts, for every argument of NewCompare)
+//@ func NewCompare(host, opts) (c)
+//@   trusted defines $fromNew; no CompareOpts exist in the repository
+//@   pure
+//@   fresh
+//@   ensures c != nil && (len(opts) == 0 ==> $fromNew(c.host))
+//@ lemma better-deterministic
+//@   prop C16
+//@   inline Better, NewCompare, Compatible
+//@   forall c *compare, a Platform, b Platform
+//@   assume c != nil
+//@   let h0 = c.host
+//@   let x = c.Better(a, b)
+//@   let y = c.Better(a, b)
+//@   assert deterministic: x == y
+//@   assert host-unchanged: c.host == h0
+
+// any entry that beats some previous choice also beats the zero platform (so "found" is monotone)
+//@ lemma better-beats-zero
+//@   prop C16
+//@   inline Better, NewCompare, Compatible
+//@   forall host Platform, t Platform, p Platform
+//@   let c = NewCompare(host, nil)
+//@   assume c.host.OS != "" && c.host.Architecture != ""
+//@   let x = c.Better(t, p)
+//@   let y = c.Better(t, Platform{})
+//@   assert beats-zero: x ==> y
+
+// The order laws restated over $better for use in callers. Each axiom is the statement of the
+// lemma of the same name above, which is proved on the real code.
+//@ axiom better-irreflexive: forall(h, Platform, forall(a, Platform, !$better(h, a, a)))
+//@ axiom better-beats-zero: forall(h, Platform, forall(t, Platform, forall(p, Platform, $fromNew(h) && h.OS != "" && h.Architecture != "" && $better(h, t, p) ==> $better(h, t, Platform{}))))
+//@ axiom better-transitive: forall(h, Platform, forall(a, Platform, forall(b, Platform, forall(d, Platform, $fromNew(h) && $semcmpOrder() && $better(h, a, b) && $better(h, b, d) ==> $better(h, a, d)))))
+//@ ufun $semcmpOrder() bool
+
+// $compat(host, target) names the result of the real Compatible(host, target) (functional
+// abstraction justified by lemma compatible-deterministic); the runnable axiom is the statement
+// of lemma better-implies-compatible.
+//@ ufun $compat(Platform, Platform) bool
+//@ func Compatible(host, target) (r)
+//@   trusted functional abstraction, justified by lemma compatible-deterministic
+//@   pure
+//@   ensures r == $compat(host, target)
+//@ lemma compatible-deterministic
+//@   prop C16
+//@   inline Compatible, NewCompare
+//@   forall h Platform, t Platform
+//@   let x = Compatible(h, t)
+//@   let y = Compatible(h, t)
+//@   assert deterministic: x == y
+//@ axiom better-implies-compatible: forall(h, Platform, forall(t, Platform, forall(p, Platform, $better(h, t, p) ==> $compat(h, t))))
